@@ -16,7 +16,7 @@ RULE = ("random path expressions to depth 4 over 2-3 predicates (inverse, sequen
         "on graphs of 1-10 triples with cycles, self-loops, diamonds and literal objects incl. falsy ones; each of the four bound/unbound combinations of the ends, ends drawn "
         "from graph nodes, falsy literals and terms absent from the graph; evaluated through Graph.triples/subjects/objects and through SPARQL. "
         "Non-trivial: the path has an operator and the expected relation is non-empty. Distinct = distinct (path, graph, ends).")
-ASSUMPTIONS = ["zero-length paths range over the subjects and objects of the graph plus the bound end(s) (SPARQL 1.1 18.4)", "results are compared as sets; a top-level closure must additionally be duplicate-free",
+ASSUMPTIONS = ["zero-length paths range over the subjects and objects of the graph plus the bound end(s) (SPARQL 1.1 18.4); where a bound end is absent from the graph and sits behind a sequence step, the join-based and the relational reading differ and the case is not judged (counted as spec_latitude)", "results are compared as sets; a top-level closure must additionally be duplicate-free",
                "SPARQL lane: blank-node and literal-subject ends are not written as constants"]
 E = "urn:e:"
 N = [URIRef(E + x) for x in "abc"] + [BNode("n")]
@@ -91,6 +91,25 @@ def rel(a, T, nodes):
     return C | Id if a[2] == "*" else C
 
 
+def rel_top(a, T, nodes, extra, top):
+    """like rel(), but the bound ends count as nodes only where the path is evaluated with that end in hand"""
+    t = a[0]
+    if t in ("link", "neg"): return rel(a, T, nodes)
+    if t == "inv": return {(o, s) for s, o in rel_top(a[1], T, nodes, extra, top)}
+    if t == "alt": return rel_top(a[1], T, nodes, extra, top) | rel_top(a[2], T, nodes, extra, top)
+    if t == "seq":
+        A = rel_top(a[1], T, nodes, extra, False); Bq = rel_top(a[2], T, nodes, extra, False)
+        return {(s, o2) for s, o in A for s2, o2 in Bq if o == s2}
+    R = rel_top(a[1], T, nodes, extra, False); Id = {(n, n) for n in (nodes | extra if top else nodes)}
+    if a[2] == "?": return R | Id
+    C = set(R)
+    while True:
+        new = {(s, o2) for s, o in C for s2, o2 in R if o == s2} - C
+        if not new: break
+        C |= new
+    return C | Id if a[2] == "*" else C
+
+
 def has_op(a): return a[0] != "link"
 def neg_inverse(a):
     if a[0] == "neg": return any(inv for inv, _ in a[1])
@@ -130,6 +149,15 @@ def run_case(case, st=None):
     bound = {lkey(x) for x in (s, o) if x is not None}
     R = rel(a, Tk, nodes | bound)
     exp = {(x, y) for x, y in R if (s is None or x == lkey(s)) and (o is None or y == lkey(o))}
+    if bound - nodes:
+        # A bound end that does not occur in the graph: inside a sequence the join-based reading of SPARQL 18.4 only lets
+        # zero-length steps range over nodes(G), the relational reading also over the given term. Where the two readings
+        # differ the case is not judged.
+        R2 = rel_top(a, Tk, nodes, bound, True)
+        exp2 = {(x, y) for x, y in R2 if (s is None or x == lkey(s)) and (o is None or y == lkey(o))}
+        if exp2 != exp:
+            st.setdefault("_count", {})["spec_latitude_absent_end_inside_sequence"] = 1
+            return None
     carve = not case.get("no_carve")
     trig = []
     if carve:
